@@ -1,1 +1,9 @@
-import Gaftools.Spec.Order
+import Gaftools.Props.C06
+#print axioms Gaftools.C18.runOrder_ranges
+#print axioms Gaftools.C18.numberChain_scaffold
+#print axioms Gaftools.C18.numberChain_bubble
+#print axioms Gaftools.C18.numberChain_only
+#print axioms Gaftools.C18.written_names
+#print axioms Gaftools.C06.dfs_path
+#print axioms Gaftools.C06.dfs_path_rev
+#print axioms Gaftools.C06.dfs_path_perm
